@@ -7,6 +7,8 @@ package main
 
 import (
 	"fmt"
+	"io"
+	"log"
 	"net/netip"
 	"reflect"
 	"strings"
@@ -1012,6 +1014,65 @@ func dedup(s []string) []string {
 	return out
 }
 
+// observeUnknownAPI: set (per process, by engine) for the differential checks only -
+// C06, C07, C08, C12 and the stress companion, whose oracle is the code's own other
+// self. Every middleware the harness creates then gets an observer registered through
+// every exported method of *cors.Middleware this harness does not know and that takes
+// one callback without results (OnPreflightFailure(func(X)), ...) or a *log.Logger:
+// a changed tree may have grown hooks, and code behind a hook that nobody registers
+// is code that never runs. An observer that returns nothing cannot legitimately
+// change a response. Model-based checks never touch unknown API.
+var observeUnknownAPI bool
+
+var knownMethods = map[string]bool{"Config": true, "Reconfigure": true, "SetDebug": true, "Wrap": true}
+
+var unknownAPICalls int
+
+func registerObservers(m *cors.Middleware) {
+	if !observeUnknownAPI || m == nil {
+		return
+	}
+	v := reflect.ValueOf(m)
+	t := v.Type()
+	for i := 0; i < t.NumMethod(); i++ {
+		mt := t.Method(i)
+		if knownMethods[mt.Name] || mt.Type.NumIn() != 2 || mt.Type.NumOut() != 0 {
+			continue
+		}
+		arg := mt.Type.In(1)
+		switch {
+		case arg.Kind() == reflect.Func && arg.NumOut() == 0:
+			cb := reflect.MakeFunc(arg, func([]reflect.Value) []reflect.Value { return nil })
+			func() {
+				defer func() { recover() }()
+				v.Method(i).Call([]reflect.Value{cb})
+				unknownAPICalls++
+			}()
+		case arg == reflect.TypeOf((*log.Logger)(nil)):
+			func() {
+				defer func() { recover() }()
+				v.Method(i).Call([]reflect.Value{reflect.ValueOf(log.New(io.Discard, "", 0))})
+				unknownAPICalls++
+			}()
+		}
+	}
+}
+
+// mkMW / zeroMW: every middleware of the harness is created here.
+func mkMW(cc cors.Config) (*cors.Middleware, error) {
+	m, err := cors.NewMiddleware(cc)
+	if err == nil {
+		registerObservers(m)
+	}
+	return m, err
+}
+
+func zeroMW() *cors.Middleware {
+	m := new(cors.Middleware)
+	registerObservers(m)
+	return m
+}
+
 // newMW builds a middleware from c; ok=false if the real code rejects c.
 func newMW(c Cfg) (m *cors.Middleware, err error, panicked any) {
 	defer func() {
@@ -1019,6 +1080,6 @@ func newMW(c Cfg) (m *cors.Middleware, err error, panicked any) {
 			panicked = p
 		}
 	}()
-	m, err = cors.NewMiddleware(c.Config())
+	m, err = mkMW(c.Config())
 	return
 }
